@@ -281,7 +281,7 @@ func genText(t *rapid.T, maxLen int) string {
 func TestC13Random(t *testing.T) {
 	run := h.Begin("C13", "random", "rapid: texts up to 40 characters over printable ASCII, C0 controls, quotes/backslashes and escape look-alikes, all line breaks, BMP and astral code points, invalid UTF-8 bytes; a reference escaper draws one allowed form per character; both quote styles; oracle and non-trivial rule as in the exhaustive part; distinct by literal")
 	defer run.End(t)
-	h.RapidSetup(h.N(4000, 300000), "c13rand")
+	h.RapidSetup(h.N(4000, 1500000), "c13rand")
 	rapid.Check(t, func(rt *rapid.T) {
 		text := genText(rt, rapid.SampledFrom([]int{3, 10, 40}).Draw(rt, "max"))
 		q := rapid.SampledFrom([]byte{'\'', '"'}).Draw(rt, "quote")
